@@ -72,6 +72,7 @@ class Env:
         self.size = const(0) if is_ctor else sym("size")
         self.minmax = {}       # symbol -> (kind, [Lin args])
         self.bounded = {"size"}   # symbols known to lie in [0, cap]
+        self.pre = []             # known inequalities (a, b): a <= b
         self.signed = set(p["n"] for p in func["params"] if any(t in p["ty"] for t in ("ptrdiff_t", "difference_type", "int ", "long"))
                           and "unsigned" not in p["ty"] and "size" not in p["ty"])
 
@@ -112,6 +113,9 @@ def lin(e, env):
             return Lin(dict((s, v * cst.k) for s, v in other.c.items()), other.k * cst.k)
         return None
     if k == "un" and e["op"] == "&":
+        inner = astx.strip_casts(e["e"])
+        if inner is not None and inner.get("k") == "ref" and inner.get("d") in ("param", "local"):
+            return sym("&" + inner["n"])          # address of a named object: an opaque position
         return loc(e["e"], env)
     if k == "call":
         nm, q, recv, kind = astx.callee(e)
@@ -160,9 +164,11 @@ def lin(e, env):
             return d + n
         if nm in ("min", "max") and len(a) == 2:
             xs = [lin(x, env) for x in a]
-            name = "%s(%s)" % (nm, astx.show(e, 80))
             if None not in xs:
+                name = "%s(%s)" % (nm, "|".join(sorted(repr(x) for x in xs)))
                 env.minmax[name] = (nm, xs)
+            else:
+                name = "%s(%s)" % (nm, astx.show(e, 80))
             return sym(name)
         if nm == "distance" and len(a) == 2:
             x, y = lin(a[0], env), lin(a[1], env)
@@ -219,6 +225,11 @@ def nonneg(d, env, depth):
         return True
     if depth > 3:
         return None
+    # known inequalities a <= b (preconditions, path facts): d >= 0 follows from d - (b - a) >= 0
+    if depth < 2:
+        for a_, b_ in getattr(env, "pre", []):
+            if nonneg(d - (b_ - a_), env, depth + 2):
+                return True
     # a bounded symbol s <= cap: a negative occurrence of s is at least as large as the same occurrence of cap
     neg_b = [t for t, w in d.c.items() if w < 0 and t in env.bounded]
     if neg_b:
@@ -517,4 +528,374 @@ def check(chk, db, records, want_destroy, skip=("unsafe_set_size", "set_size"), 
         if "U" not in only and not any(x.get("k") == "call" and astx.callee(x)[0] in SIZE_STORES for x in astx.all_exprs(f, into_lambdas=False)):
             continue
         n += check_function(chk, f, want_destroy(r), ("SLOTS-W",), only)
+    return n
+
+
+# ---- POST: the size a mutator leaves behind ----------------------------------------------------------------------
+def kind_of(ty):
+    t = ty.replace("const ", "").replace(" const", "").replace("&", "").replace("etl::basic_inplace_string::", "").replace(
+        "etl::static_vector::", "").replace("etl::inplace_vector::", "").strip()
+    if t.endswith("..."):
+        return "pack"
+    if t in ("size_type", "size_t", "etl::size_t", "difference_type", "ptrdiff_t"):
+        return "n"
+    if t in ("const_pointer", "pointer", "Char *", "const_pointer"):
+        return "p"
+    if t.endswith("*"):
+        return "p"
+    if "iterator" in t or t in ("InputIt", "InputIter", "ForwardIt", "It"):
+        return "it"
+    if "basic_inplace_string" in t or t in ("StringView",) or "string_view" in t or "static_vector" in t or "inplace_vector" in t:
+        return "s"
+    return "c"
+
+
+def _mn(env, a, b):
+    name = "min(%s)" % "|".join(sorted(repr(x) for x in (a, b)))
+    env.minmax[name] = ("min", [a, b])
+    return sym(name)
+
+
+def arg_kind(e, env_kinds, f):
+    """'n' | 'c' | 'p' | 'it' | 's' | None (unknown) for an argument expression"""
+    e = astx.strip_casts(e)
+    if e is None:
+        return None
+    k = e.get("k")
+    if k == "paren":
+        return arg_kind(e.get("e"), env_kinds, f)
+    if k == "int":
+        return "n"
+    if k == "char":
+        return "c"
+    if k == "ref":
+        if e["n"] in env_kinds:
+            return env_kinds[e["n"]]
+        return None
+    if k == "call":
+        nm = astx.callee(e)[0]
+        if nm in ("begin", "end", "cbegin", "cend", "next", "prev"):
+            return "it"
+        if nm in ("size", "length", "capacity", "max_size", "distance", "min", "max"):
+            return "n"
+        if nm in ("data", "c_str"):
+            return "p"
+        if nm in ("move", "forward") and len(e["a"]) == 1:
+            return arg_kind(e["a"][0], env_kinds, f)
+        return None
+    if k == "bin" and e["op"] in ("+", "-"):
+        a, b = arg_kind(e["l"], env_kinds, f), arg_kind(e["r"], env_kinds, f)
+        if e["op"] == "-" and a == "it" and b == "it":
+            return "n"
+        if "it" in (a, b):
+            return "it"
+        if "p" in (a, b):
+            return "p"
+        if a == "n" or b == "n":
+            return "n"
+        return None
+    if k in ("construct",):
+        ty = e.get("ty") or ""
+        if ty in ("Char", "T", "value_type"):
+            return "c"
+        return kind_of(ty) if ty else None
+    if k == "un" and e["op"] == "&":
+        return "p"
+    return None
+
+
+# (name, parameter kinds) -> (new size as a function of (env, old size, argument forms), parameters bounded by capacity)
+POST_SPECS = {
+    ("clear", ()): (lambda env, sz, a: const(0), ()),
+    ("push_back", ("c",)): (lambda env, sz, a: sz + const(1), (), lambda sz, a: [(sz + const(1), sym("cap"))]),
+    ("emplace_back", ("pack",)): (lambda env, sz, a: sz + const(1), ()),
+    ("unchecked_push_back", ("c",)): (lambda env, sz, a: sz + const(1), ()),
+    ("unchecked_emplace_back", ("pack",)): (lambda env, sz, a: sz + const(1), ()),
+    ("pop_back", ()): (lambda env, sz, a: sz - const(1), ()),
+    ("resize", ("n",)): (lambda env, sz, a: a[0], (0,)),
+    ("resize", ("n", "c")): (lambda env, sz, a: a[0], (0,)),
+    ("append", ("n", "c")): (lambda env, sz, a: sz + _mn(env, a[0], sym("cap") - sz), ()),
+    ("append", ("p", "n")): (lambda env, sz, a: sz + _mn(env, a[1], sym("cap") - sz), ()),
+    ("erase", ("it", "it")): (lambda env, sz, a: sz - (a[1] - a[0]), ()),
+    ("erase", ("it",)): (lambda env, sz, a: sz - const(1), ()),
+    ("erase", ("n", "n")): (lambda env, sz, a: sz - _mn(env, a[1], sz - a[0]), ()),
+    ("assign", ("n", "c")): (lambda env, sz, a: a[0], (0,)),
+    ("assign", ("p", "n")): (lambda env, sz, a: a[1], (1,)),
+    ("assign", ("it", "it")): (lambda env, sz, a: a[1] - a[0], ()),
+    ("insert", ("it", "c")): (lambda env, sz, a: sz + const(1), ()),
+    ("insert", ("it", "n", "c")): (lambda env, sz, a: sz + a[1], ()),
+    ("insert", ("it", "it", "it")): (lambda env, sz, a: sz + (a[2] - a[1]), ()),
+    ("move_insert", ("it", "it", "it")): (lambda env, sz, a: sz + (a[2] - a[1]), ()),
+    ("emplace_n", ("n",)): (lambda env, sz, a: a[0], (0,)),
+}
+CTOR_SIZE = {("n", "c"): lambda a: a[0], ("p", "n"): lambda a: a[1], ("it", "it"): lambda a: a[1] - a[0]}
+
+
+def resolve_minmax(L, env, depth=0):
+    """replace min/max symbols whose argument order is decided by the <= test"""
+    if depth > 3:
+        return L
+    for s_, v in list(L.c.items()):
+        mm = env.minmax.get(s_)
+        if mm is None:
+            continue
+        kind, (x, y) = mm[0], mm[1]
+        pick = None
+        if le(x, y, env):
+            pick = x if kind == "min" else y
+        elif le(y, x, env):
+            pick = y if kind == "min" else x
+        if pick is not None:
+            rest = Lin(dict((t, w) for t, w in L.c.items() if t != s_), L.k)
+            return resolve_minmax(rest + Lin(dict((t, w * v) for t, w in pick.c.items()), pick.k * v), env, depth + 1)
+    return L
+
+
+def spec_for(db, rec, name, params):
+    kinds = tuple(kind_of(p["ty"]) if not p.get("pack") else "pack" for p in params)
+    return POST_SPECS.get((name, kinds)), kinds
+
+
+def size_changers(db, records):
+    """names of member functions (of the given record family) that may change the size: they store it directly or call one
+    that does (least fixed point over the own-object call relation)"""
+    fam = [f for f in db.funcs if any(x in (f.get("record") or "") for x in records) and f.get("body") is not None]
+    names = set()
+    for f in fam:
+        for x in astx.all_exprs(f, into_lambdas=True):
+            if x.get("k") == "call" and astx.callee(x)[0] in SIZE_STORES + ("set_size",):
+                names.add(f["n"])
+            if x.get("k") == "bin" and x["op"] in ("=", "+=", "-=") and astx.strip_casts(x["l"]) is not None and \
+                    astx.strip_casts(x["l"]).get("k") == "mem" and astx.strip_casts(x["l"]).get("n") in ("_size",):
+                names.add(f["n"])
+            if x.get("k") == "un" and x["op"] in ("++", "--") and astx.strip_casts(x["e"]) is not None and \
+                    astx.strip_casts(x["e"]).get("k") == "mem" and astx.strip_casts(x["e"]).get("n") in ("_size",):
+                names.add(f["n"])
+    changed = True
+    while changed:
+        changed = False
+        for f in fam:
+            if f["n"] in names:
+                continue
+            for x in astx.all_exprs(f, into_lambdas=True):
+                if x.get("k") == "call" and astx.callee(x)[0] in names:
+                    nm, q, recv, kind = astx.callee(x)
+                    own = (kind == "member" and astx.is_this(recv)) or (kind == "free" and not (x["f"].get("qual") or ""))
+                    if own:
+                        names.add(f["n"])
+                        changed = True
+                        break
+                if x.get("k") == "bin" and x["op"] == "=" and astx.strip_casts(x["l"]) is not None and \
+                        astx.strip_casts(x["l"]).get("k") == "un" and astx.strip_casts(astx.strip_casts(x["l"])["e"]).get("k") == "this":
+                    names.add(f["n"])
+                    changed = True
+                    break
+    return names
+
+
+def check_post(chk, db, records, rule="POST"):
+    """POST: along every structural path of a mutating member the size it leaves equals the specified one; calls of other
+    mutators of the same object use *their* specification (assume/guarantee). Paths with a size change inside a loop or
+    through an unspecified member are UNKNOWN."""
+    n = 0
+    changers = size_changers(db, records)
+    for f in db.funcs:
+        rec = f.get("record") or ""
+        if not any(x in rec for x in records) or f.get("body") is None or f.get("kind") not in ("method",):
+            continue
+        sp, kinds = spec_for(db, rec, f["n"], f["params"])
+        if sp is None or "zero_storage" in rec or rec.replace(" ", "").endswith(",0>"):
+            continue
+        fn, bounded_idx = sp[0], sp[1]
+        pre_fn = sp[2] if len(sp) > 2 else None
+        construct = astx.sig(f)
+        n += 1
+        chk.instance(rule)
+        verdict = True
+        why = None
+        bad = None
+        for p in SP.paths(f["body"]):
+            env = Env(f, False)
+            names = [q["n"] for q in f["params"]]
+            for i in bounded_idx:
+                env.bounded.add(names[i])
+            args0 = [sym(q["n"]) for q in f["params"]]
+            want = fn(env, sym("size"), args0)
+            if pre_fn:
+                env.pre += pre_fn(sym("size"), args0)
+            in_loop = 0
+            facts = []
+            unknown = None
+            infeasible = False
+            env_kinds = dict((q["n"], kind_of(q["ty"])) for q in f["params"] if not q.get("pack"))
+            for ev in p:
+                if ev[0] == "cond":
+                    c = astx.strip_casts(ev[1])
+                    if c is not None and c.get("k") == "bin" and c["op"] in ("<", ">", "<=", ">=", "==", "!="):
+                        l, r = lin(c["l"], env), lin(c["r"], env)
+                        if l is not None and r is not None:
+                            d = (l - r)
+                            if d.is_const():
+                                val = {"<": d.k < 0, ">": d.k > 0, "<=": d.k <= 0, ">=": d.k >= 0, "==": d.k == 0, "!=": d.k != 0}[c["op"]]
+                                if val != ev[2]:
+                                    infeasible = True
+                                    break
+                            op_ = c["op"] if ev[2] else {"<": ">=", ">": "<=", "<=": ">", ">=": "<", "==": "!=", "!=": "=="}[c["op"]]
+                            facts.append((op_, l, r))
+                            if op_ == "<=":
+                                env.pre.append((l, r))
+                            elif op_ == ">=":
+                                env.pre.append((r, l))
+                            elif op_ == "<":
+                                env.pre.append((l + const(1), r))
+                            elif op_ == ">":
+                                env.pre.append((r + const(1), l))
+                            elif op_ == "==":
+                                env.pre += [(l, r), (r, l)]
+                if ev[0] == "backedge-cond":
+                    in_loop += 1
+                if ev[0] == "decl":
+                    v = ev[1]
+                    if v.get("init") is not None and not v.get("ref"):
+                        t = lin(v["init"], env)
+                        if t is not None:
+                            env.locals[v["n"]] = t
+                        else:
+                            env.locals.pop(v["n"], None)
+                        env_kinds[v["n"]] = arg_kind(v["init"], env_kinds, f)
+                for e in SP.event_exprs(ev):
+                    for x in astx.walk_expr(e, into_lambdas=False):
+                        if x.get("k") == "call":
+                            nm, q, recv, kind = astx.callee(x)
+                            own = (kind == "member" and astx.is_this(recv)) or (kind == "free" and x["f"].get("d") in ("unresolved", "CXXMethod") and not (x["f"].get("qual") or ""))
+                            if nm in SIZE_STORES and own and len(x["a"]) == 1:
+                                t = lin(x["a"][0], env)
+                                if t is None:
+                                    unknown = "size expression not linear"
+                                else:
+                                    env.size = t
+                            elif own and nm in set(k[0] for k in POST_SPECS):
+                                cands = [g for g in db.methods(rec, nm) if len(g["params"]) == len(x["a"]) or any(q.get("pack") for q in g["params"])]
+                                aks = [arg_kind(a, env_kinds, f) for a in x["a"]]
+
+                                def fits(g):
+                                    ks = spec_for(db, rec, nm, g["params"])[1]
+                                    if "pack" in ks:
+                                        return True
+                                    return all(ak is None or ak == gk or (ak == "p" and gk == "it") for ak, gk in zip(aks, ks))
+                                cands = [g for g in cands if fits(g)]
+                                chosen = [g for g in cands if spec_for(db, rec, nm, g["params"])[0] is not None]
+                                if len(set(spec_for(db, rec, nm, g["params"])[1] for g in cands)) != 1 or not chosen:
+                                    unknown = "call of `%s` is not resolved to one specified overload" % nm
+                                else:
+                                    fn2 = spec_for(db, rec, nm, chosen[0]["params"])[0][0]
+                                    args = [lin(a, env) for a in x["a"]]
+                                    if any(a is None for a in args) and not any(q.get("pack") for q in chosen[0]["params"]):
+                                        unknown = "argument of `%s` not linear" % nm
+                                    else:
+                                        env.size = fn2(env, env.size, args)
+                            elif own and nm not in SIZE_STORES and nm in changers:
+                                unknown = "call of the unspecified size-changing member `%s`" % nm
+                        if x.get("k") == "bin" and x["op"] == "=":
+                            l = astx.strip_casts(x["l"])
+                            if l is not None and l.get("k") == "un" and l["op"] == "*" and astx.strip_casts(l["e"]).get("k") == "this":
+                                r = astx.strip_casts(x["r"])
+                                if r is not None and r.get("k") in ("construct", "initlist"):
+                                    args = r.get("a", [])
+                                    if len(args) == 1 and args[0] is not None and args[0].get("k") == "initlist":
+                                        args = args[0]["a"]
+                                    ctors = [g for g in db.by_q.get(rec + "::<ctor>", []) if len(g["params"]) == len(args)]
+                                    aks = [arg_kind(a, env_kinds, f) for a in args]
+                                    kk = set(tuple(kind_of(q["ty"]) for q in g["params"]) for g in ctors)
+                                    kk = [k0 for k0 in kk if all(ak is None or ak == gk for ak, gk in zip(aks, k0))]
+                                    if not all(k0 in CTOR_SIZE for k0 in kk):
+                                        kk = []
+                                    if len(kk) == 1:
+                                        la = [lin(a, env) for a in args]
+                                        env.size = CTOR_SIZE[kk[0]](la) if None not in la else env.size
+                                        if None in la:
+                                            unknown = "constructor argument not linear"
+                                    else:
+                                        unknown = "assignment from a temporary whose size is not specified"
+                                else:
+                                    unknown = "assignment of another object"
+            if infeasible:
+                continue
+            if in_loop:
+                unknown = unknown or "the size changes inside a loop"
+                # only if a size-changing call occurred at all; a loop that does not touch the size is harmless
+                if env.size == sym("size"):
+                    unknown = None if want == sym("size") else unknown
+            if unknown:
+                if verdict is True:
+                    verdict, why = None, unknown
+                continue
+            got = resolve_minmax(env.size, env)
+            wnt = resolve_minmax(want, env)
+            # path facts of the form a < b / a >= b decide remaining min/max
+            if got == wnt:
+                continue
+            # an equality fact l == r on the path: forms that differ by a multiple of (l - r) are equal
+            diff = got - wnt
+            eq_ok = False
+            for op, l, r in facts:
+                if op == "==":
+                    dd = l - r
+                    if dd.c and not dd.is_const():
+                        s0 = next(iter(dd.c))
+                        if diff.c.get(s0, 0) % dd.c[s0] == 0:
+                            m_ = diff.c.get(s0, 0) // dd.c[s0]
+                            if diff == Lin(dict((t, w * m_) for t, w in dd.c.items()), dd.k * m_):
+                                eq_ok = True
+            if not eq_ok and le(got, wnt, env) and le(wnt, got, env):
+                eq_ok = True
+            if eq_ok:
+                continue
+            # try to refute concretely over the bounded symbols and the parameters (0, 1, cap-1, cap), respecting the facts
+            import itertools
+            symbols = sorted((set(got.c) | set(wnt.c) | set(s0 for _o, l, r in facts for s0 in list(l.c) + list(r.c))) - {"B", "cap"})
+            flat = []
+            for s0 in symbols:
+                if s0 in env.minmax:
+                    for x0 in env.minmax[s0][1]:
+                        flat += [t for t in x0.c if t not in ("B", "cap")]
+                else:
+                    flat.append(s0)
+            flat = sorted(set(t for t in flat if t not in env.minmax))
+            found = None
+            if len(flat) <= 4:
+                cap = 7
+                for vals in itertools.product((0, 1, 2, cap - 1, cap), repeat=len(flat)):
+                    asg = dict(zip(flat, vals))
+                    asg["cap"] = cap
+                    if asg.get("size", 0) > cap or any(asg.get(b0, 0) > cap for b0 in env.bounded):
+                        continue
+                    ok_f = True
+                    for op, l, r in facts:
+                        lv, rv = concrete(l, env, asg), concrete(r, env, asg)
+                        if lv is None or rv is None:
+                            ok_f = None
+                            break
+                        if not {"<": lv < rv, ">": lv > rv, "<=": lv <= rv, ">=": lv >= rv, "==": lv == rv, "!=": lv != rv}[op]:
+                            ok_f = False
+                            break
+                    if not ok_f:
+                        continue
+                    gv, wv = concrete(got, env, asg), concrete(wnt, env, asg)
+                    if gv is None or wv is None:
+                        continue
+                    if gv != wv and wv >= 0 and wv <= cap:
+                        found = (asg, gv, wv)
+                        break
+            if found and bad is None:
+                bad = (got, wnt, found)
+            elif not found and verdict is True:
+                verdict, why = None, "size `%s` not shown equal to the specified `%s`" % (got, wnt)
+        chk.obligation(rule, construct, False if bad else verdict)
+        if bad:
+            got, wnt, (asg, gv, wv) = bad
+            chk.violation(rule, construct, "size-after", "%s: a path leaves size `%s` where `%s` is specified: with %s the size becomes %d instead of %d" % (
+                astx.loc(f), got, wnt, ", ".join("%s = %s" % kv for kv in sorted(asg.items())), gv, wv), {"where": astx.loc(f)})
+        elif verdict is None:
+            chk.unknown_instance(rule, construct, why or "")
     return n
